@@ -519,7 +519,12 @@ def c08_numeric(ctx):
     c07_5(ctx)
 
 
-RULES = [c08_1, c08_2, c08_3, c08_6, c08_7, mute_state, c08_state, c08_latch, c08_numeric]
+def c08_per_file(ctx):
+    """A conditional chain lives in one file: every file is read with a condition stack of its own (C17.5)."""
+    from rules.c17 import c17_5
+    c17_5(ctx)
+
+RULES = [c08_1, c08_2, c08_3, c08_6, c08_7, mute_state, c08_state, c08_latch, c08_numeric, c08_per_file]
 
 _CSF = 'assembler/preprocessor/condition_stack.py'
 _CF = 'assembler/preprocessor/condition.py'
